@@ -125,6 +125,23 @@ Example C02_whole_register_example :
   pexpand env0 (decls ++ [SBarrier [QId "q"; q 1]]) = None.
 Proof. vm_compute. repeat split; reflexivity. Qed.
 
+(* what the judgement takes an index set and a stepped slice to designate, for every register size, index list and bounds: the set's
+   bits in the order written (refused as soon as one index is outside the register), the slice's bits a, a+s, a+2s, ... strictly
+   before b, with start and end - 1 inside the register; C02_operand_resolves_to_its_bits says the visitor resolves to exactly these *)
+Theorem C02_index_set_designates_its_elements_in_order m r n zs : sget r m = Some n ->
+  opnd_bits m (QIdx r [IdxSet (map (fun z => ELit (VInt z)) zs)]) =
+  if forallb (in_size n) zs then Some (map (fun i => (r, i)) zs) else None.
+Proof. exact (opnd_bits_index_set m r n zs). Qed.
+Print Assumptions C02_index_set_designates_its_elements_in_order.
+
+Theorem C02_stepped_slice_designates_the_range m r n a b st bits : sget r m = Some n ->
+  opnd_bits m (QIdx r [IdxList [IRange (Some (ELit (VInt a))) (Some (ELit (VInt b))) (Some (ELit (VInt st)))]]) = Some bits ->
+  (0 <= a < n /\ 0 <= b - 1 < n) /\
+  exists l, bits = map (fun i => (r, i)) l /\
+    forall x, In x l <-> exists k, 0 <= k /\ x = a + k * st /\ (if 0 <? st then x < b else b < x).
+Proof. exact (opnd_bits_slice m r n a b st bits). Qed.
+Print Assumptions C02_stepped_slice_designates_the_range.
+
 (* index sets r[{i, j, ...}] of integer literals are operands of the same judgement: the bits in the order written, every
    index checked against the register, a repeated bit refused (the implementation raises "Duplicate qubit") *)
 Example C02_index_set_example :
